@@ -109,11 +109,15 @@ pub async fn spawn_process<P: Process>(
         };
 
         process.terminate().await;
+        #[cfg(edp_rs_verif)]
+        edp_client::verif_hooks::yield_point("proc:before_exit_signals").await;
 
         if let Err(e) = propagate_exit_signals(&handle_clone, &registry, exit_reason).await {
             tracing::error!("Failed to propagate exit signals for {}: {}", pid, e);
         }
 
+        #[cfg(edp_rs_verif)]
+        edp_client::verif_hooks::yield_point("proc:before_registry_remove").await;
         registry.remove(&pid).await;
     });
 
@@ -137,6 +141,8 @@ async fn propagate_exit_signals(
         }
     }
 
+    #[cfg(edp_rs_verif)]
+    edp_client::verif_hooks::yield_point("proc:between_links_and_monitors").await;
     let monitors = handle.get_monitors().await;
     for (monitoring_pid, reference) in monitors {
         if let Some(monitoring_handle) = registry.get(&monitoring_pid).await {
